@@ -80,3 +80,33 @@ def _conv_halo(S):
 Lemma("C01.halo.convolution", _conv_halo, props=("C01", "C09"),
       notes="convolution_2d on a NaN-padded block (depth = kernel half-sizes), trimmed, equals convolution_2d on the whole array: "
             "base and step of the inductions over the window rows / columns")
+
+
+# ---- focal.apply with a kernel of symbolic (odd) shape: the window the reducer receives for a trimmed cell of the NaN-padded block
+# (depth = kernel half-shape) is, position by position, the window it receives for the same cell of the whole array - cells outside
+# the raster are NaN in both (padding there, clipping here).  Equal windows give equal reducer results (the reducer is a function
+# of the window array), so block-wise apply == whole-array apply.
+def _window_halo(S):
+    A = S.array("WA", "f", 2)
+    P = S.array("WP", "f", 2)
+    K = S.array("WK", "f", 2)
+    a, p, k = S.st.heap[A.cell], S.st.heap[P.cell], S.st.heap[K.cell]
+    rows, cols = a.shape
+    krows, kcols = k.shape
+    r0, r1, c0, c1, i, j, wa, wb = z3.Ints("wr0 wr1 wc0 wc1 wi wj wa wb")
+    qi, qj = z3.Ints("wqi wqj")
+    hr, hc = krows / 2, kcols / 2
+    hyps = [krows >= 1, kcols >= 1, krows % 2 == 1, kcols % 2 == 1,
+            0 <= r0, r0 < r1, r1 <= rows, 0 <= c0, c0 < c1, c1 <= cols,
+            p.shape[0] == r1 - r0 + 2 * hr, p.shape[1] == c1 - c0 + 2 * hc,
+            z3.ForAll([qi, qj], p.select([qi, qj]) == z3.If(
+                z3.And(0 <= r0 - hr + qi, r0 - hr + qi < rows, 0 <= c0 - hc + qj, c0 - hc + qj < cols),
+                a.select([r0 - hr + qi, c0 - hc + qj]), xr.NAN), patterns=[p.select([qi, qj])]),
+            0 <= i, i < r1 - r0, 0 <= j, j < c1 - c0, 0 <= wa, wa < krows, 0 <= wb, wb < kcols]
+    inner = S.call("win_cell", P, K, hr + i, hc + j, wa, wb, p.shape[0], p.shape[1], krows, kcols).t
+    whole = S.call("win_cell", A, K, r0 + i, c0 + j, wa, wb, rows, cols, krows, kcols).t
+    return [("window-cell", hyps, inner == whole)]
+
+
+Lemma("C01.halo.focal_window", _window_halo, props=("C01", "C09"),
+      notes="focal.apply on a NaN-padded block (depth = kernel half-shape): the reducer sees the same window as on the whole array")
